@@ -26,9 +26,9 @@ ENGINE = {'name': 'caddyfile',
               'parseLayer4 (several global blocks); Server / ListenerWrapper / subroute / tee / not UnmarshalCaddyfile; block structure of the token '
               'stream (what Next/NextArg/NextBlock/NextSegment walk)',
               'leaf UnmarshalCaddyfile + JSON encoding modelled AND leaf equation proved (parse (print x) = json x): matchers ssh xmpp postgres proxy_protocol socks4 socks5 regexp clock wireguard winbox '
-              'remote_ip local_ip dns rdp openvpn; handlers echo proxy_protocol throttle (integral rates) socks5 proxy (upstream incl. tls_* options '
+              'remote_ip local_ip dns rdp openvpn, tls and quic (sets of sni / alpn / remote_ip incl. "!" and private_ranges / local_ip); handlers echo proxy_protocol throttle (integral rates) socks5 proxy (upstream incl. tls_* options '
               'except trust pools, health checks, load balancing, six selection policies)',
-              'not modelled (oracle only): tls / http / quic matchers, tls handler, decimal throttle rates, tls_trust_pool; Caddy lexer, Dispenser cursor, '
+              'not modelled (oracle only): http matcher, tls handler (its connection_policy match sets use the same generator as the tls matcher), decimal throttle rates, tls_trust_pool; Caddy lexer, Dispenser cursor, '
               'error texts, module loader'],
  'assumptions': ['adapt_structural is proved for configurations satisfying config_ok (distinct set names, references defined, non-empty named sets, '
                  'distinct matcher names per set, durations within int64, leaf domains); the checker recomputes config_ok on every case',
